@@ -81,7 +81,11 @@ def body_geometry(env):
                tol=1e-9)
         env.eq('bundle area is the sum of the subchannel areas', g['bundle_params']['area'], flow)
         for i in range(3):
-            env.gt('flow area of type %d positive' % i, prm['area'][i], 0, core=not wire or se2)
+            if not wire or se2:
+                # with the wire cross-section divided by cos(theta) the flow areas are not positive for every admissible
+                # input (short leads or wires much thicker than the pins make them negative: P = 1, D = Dw = H = 0.5); the
+                # property does not claim positivity, and the reader does not bound the lead (observation, DESIGN 5)
+                env.gt('flow area of type %d positive' % i, prm['area'][i], 0)
             env.eq('hydraulic diameter of type %d = 4A/P' % i, prm['de'][i] * prm['wp'][i], 4 * prm['area'][i])
         # ---- duct and bypass annuli
         for i in range(nduct):
@@ -366,7 +370,7 @@ def main():
                 'dimensions': 'all admissible positive pitch/diameter/wire/wall/bypass/clearance values (pins fit, wire fits)',
                 'SE2 flag': 'on/off', 'wire': 'with / without'},
         outside=['centroid coordinates: six-fold symmetry and agreement with the adjacency are concrete checks per enumerated bundle (centroids[...] instances: no symbolic dimension)',
-                 'positivity of the wire-wrapped flow areas for extreme wire angles (best-effort obligation)'],
+                 'positivity of the wire-wrapped flow areas (not part of the statement; false for short wire leads or very thick wires, which the reader accepts)'],
         level_assumptions=['pin_pitch >= pin_diameter + wire_diameter; duct inner flat-to-flat >= sqrt3 (n-1) P + D + 2 Dw (constructor check)',
                            'sqrt3 in (1.732, 1.7321) and sqrt3^2 = 3; 3.14159 < pi < 3.1416; the float literals _sqrt3 etc. are replaced by these symbols'])
 
